@@ -6,7 +6,7 @@
    gen/SerdeConsts.v, regenerated from pkg/base/serde/serde.go and internal/tags. *)
 From Coq Require Import List NArith ZArith Sorting.Permutation Sorted.
 Import ListNotations.
-Require Import V.base.Bytes V.gen.SerdeConsts V.model.Cbor V.model.Schema.
+Require Import V.base.Bytes V.gen.SerdeConsts V.gen.SerdeDtos V.model.Cbor V.model.Schema.
 Require Import V.proofs.Cbor_proofs V.proofs.Schema_proofs.
 Local Open Scope N_scope.
 
@@ -20,6 +20,13 @@ Theorem C12_serde_limits_sane :
   lim64 serde_limits /\ (0 < max_depth serde_limits)%nat /\ 1 <= max_arr serde_limits.
 Proof. exact serde_limits_sane. Qed.
 Print Assumptions C12_serde_limits_sane.
+
+(* the wire field names (and omitempty flags) of the 29 DTO structs behind the typed schemas,
+   regenerated from the struct declarations, are exactly the fields of the model's schemas *)
+Theorem C12_dto_fields_agree :
+  forallb (fun p : schema * list (bytes * bool) => same_fields (struct_fields (fst p)) (snd p)) dto_table = true.
+Proof. exact dto_fields_agree. Qed.
+Print Assumptions C12_dto_fields_agree.
 
 (* ---- round trip, for every well-formed item within the limits ---------------------------- *)
 
@@ -217,6 +224,24 @@ Theorem C12_baseshard_valid_spec : forall c m x,
   valid (TKwShare c) (fld k_share x) = true.
 Proof. exact baseshard_valid_spec. Qed.
 Print Assumptions C12_baseshard_valid_spec.
+
+Theorem C12_vv_valid_spec : forall c x,
+  valid (TFeldmanVV c) x = true ->
+  let m := fld k_verification_vector x in
+  int_of (fld k_cols m) = 1%Z /\ (0 < int_of (fld k_rows m))%Z /\
+  lenZ (arr_of (fld k_data m)) = int_of (fld k_rows m).
+Proof. exact vv_valid_spec. Qed.
+Print Assumptions C12_vv_valid_spec.
+
+Theorem C12_cnf_valid_spec : forall x,
+  valid TCnf x = true ->
+  let d := untag x in
+  let sets := map keys_of (arr_of (fld k_maximal_unqualified_sets d)) in
+  sets <> [] /\ Forall (fun s => s <> [] /\ ~ In 0 s) sets /\ 2 <= len (dedupN (List.concat sets)) /\
+  antichain_from [] sets = true /\
+  seteqN (keys_of (fld k_shareholders d)) (dedupN (List.concat sets)) = true.
+Proof. exact cnf_valid_spec. Qed.
+Print Assumptions C12_cnf_valid_spec.
 
 (* ---- non-vacuity: concrete instances of the hypotheses ------------------------------------- *)
 
